@@ -37,6 +37,7 @@ import re
 from itertools import chain
 from typing import (
     Any,
+    Callable,
     cast,
     Dict,
     FrozenSet,
@@ -492,9 +493,14 @@ class Field:
 @dataclasses.dataclass(frozen=True)
 class FieldHeader:
     raw: str
+    # The attribute path on the request, when the fields along the path are
+    # known (fields of types that are not proto-plus keep their names).
+    attr_path: Optional[str] = dataclasses.field(default=None, compare=False)
 
     @property
     def disambiguated(self) -> str:
+        if self.attr_path is not None:
+            return self.attr_path
         # The raw header may be a dotted path; each segment is an attribute
         # access and needs to be disambiguated on its own.
         return ".".join(
@@ -789,9 +795,16 @@ class MessageType:
 
         # Get the first field in the path.
         first_field = field_path[0]
-        cursor = self.fields[
-            first_field + ("_" if first_field in utils.RESERVED_NAMES else "")
-        ]
+        # Fields of types that are not proto-plus keep their names.
+        disambiguated_field = first_field + (
+            "_" if first_field in utils.RESERVED_NAMES else ""
+        )
+        if disambiguated_field not in self.fields:
+            if first_field in self.fields:
+                disambiguated_field = first_field
+            elif first_field[-1:] == "_" and first_field[:-1] in utils.RESERVED_NAMES:
+                disambiguated_field = first_field[:-1]
+        cursor = self.fields[disambiguated_field]
 
         # Base case: If this is the last field in the path, return it outright.
         if len(field_path) == 1:
@@ -1216,6 +1229,9 @@ class RetryInfo:
 class RoutingParameter:
     field: str
     path_template: str
+    # The attribute path on the request, when the fields along the path are
+    # known (fields of types that are not proto-plus keep their names).
+    attr_path: Optional[str] = dataclasses.field(default=None, compare=False)
 
     def _split_into_segments(self, path_template):
         segments = path_template.split("/")
@@ -1323,6 +1339,8 @@ class RoutingParameter:
 
         Every segment that is a reserved name carries a trailing underscore.
         """
+        if self.attr_path is not None:
+            return self.attr_path
         return ".".join(
             segment + "_" if segment in utils.RESERVED_NAMES else segment
             for segment in self.field.split(".")
@@ -1465,7 +1483,9 @@ class HttpRule:
         return sample
 
     @classmethod
-    def try_parse_http_rule(cls, http_rule) -> Optional["HttpRule"]:
+    def try_parse_http_rule(
+        cls, http_rule, attr_path: Optional[Callable[[str], Optional[str]]] = None
+    ) -> Optional["HttpRule"]:
         method = http_rule.WhichOneof("pattern")
         if method is None or method == "custom":
             return None
@@ -1473,11 +1493,13 @@ class HttpRule:
         uri = getattr(http_rule, method)
         if not uri:
             return None
-        uri = utils.convert_uri_fieldnames(uri)
+        uri = utils.convert_uri_fieldnames(uri, attr_path)
 
         body = http_rule.body or None
         # Ensure body doesn't conflict with reserved names.
-        if body in utils.RESERVED_NAMES and not body.endswith("_"):
+        if body and body != "*" and attr_path and attr_path(body):
+            body = attr_path(body)
+        elif body in utils.RESERVED_NAMES and not body.endswith("_"):
             body += "_"
         return cls(method, uri, body)
 
@@ -1696,11 +1718,33 @@ class Method:
             http.custom.path,
         ]
         field_headers = (
-            tuple(FieldHeader(field_header) for field_header in pattern.findall(verb))
+            tuple(
+                FieldHeader(field_header, self._request_attr_path(field_header))
+                for field_header in pattern.findall(verb)
+            )
             for verb in potential_verbs
             if verb
         )
         return next(field_headers, ())
+
+    def _request_attr_path(self, field_path: str) -> Optional[str]:
+        """Return the dotted path as attribute accesses on the request, if it resolves."""
+        names = []
+        message: Optional[MessageType] = self.input
+        for segment in field_path.split("."):
+            field = next(
+                (
+                    f
+                    for f in (message.fields.values() if message else ())
+                    if f.field_pb.name == segment
+                ),
+                None,
+            )
+            if field is None:
+                return None
+            names.append(field.name)
+            message = field.message
+        return ".".join(names)
 
     @property
     def explicit_routing(self):
@@ -1711,6 +1755,15 @@ class Method:
         if self.explicit_routing:
             routing_ext = self.options.Extensions[routing_pb2.routing]
             routing_rule = RoutingRule.try_parse_routing_rule(routing_ext)
+            if routing_rule:
+                routing_rule = RoutingRule(
+                    [
+                        dataclasses.replace(
+                            param, attr_path=self._request_attr_path(param.field)
+                        )
+                        for param in routing_rule.routing_parameters
+                    ]
+                )
             return routing_rule
         return None
 
@@ -1720,7 +1773,8 @@ class Method:
         http = self.options.Extensions[annotations_pb2.http]
         http_options = [http] + list(http.additional_bindings)
         opt_gen = (
-            HttpRule.try_parse_http_rule(http_rule) for http_rule in http_options
+            HttpRule.try_parse_http_rule(http_rule, self._request_attr_path)
+            for http_rule in http_options
         )
         return [rule for rule in opt_gen if rule]
 
